@@ -1212,3 +1212,67 @@ def _names_through_locals(expr: ast.AST, fn: ast.AST, org: Origins, at: ast.AST,
         if not frontier:
             break
     return seen
+
+
+# -- C06: cancelling incremental work always aborts; priming always tracks ------------------------
+
+
+def cancel_aborts(check: Check, repo: Repo, rule: str = "CANCEL-ABORTS") -> None:
+    check.rule(
+        rule,
+        "Executor.cancel_incremental_work reaches its normal exit only through `self.abort(...)` (must-pass-"
+        "through on the CFG, exceptional edges excluded): the abort callback is what closes stream sources "
+        "that were opened without any pending future, so an early return on `no pending futures` leaves a "
+        "started source iterator open",
+    )
+    fn = repo.func("execution.executor", "Executor.cancel_incremental_work")
+    cfg = CFG(fn)
+    aborts = [c for c in walk_body(fn) if isinstance(c, ast.Call) and call_name(c) == "self.abort"]
+    if not aborts:
+        check.ob(rule, fn, "cancel_incremental_work calls self.abort", False, "no call of self.abort(...) at all")
+        return
+    abort_nodes = {n for c in aborts for n in cfg.node_for_expr(c)}
+    path = cfg.find_path(cfg.entry, lambda n: n is cfg.exit, follow=no_exc, avoid=lambda n: n in abort_nodes)
+    check.ob(rule, aborts[0], "every normal path of cancel_incremental_work passes self.abort(...)", path is None,
+             "self.abort(...) dominates the exit" if path is None else "path to the exit without abort: " + cfg.describe_path(path))
+    # the awaitable result of abort is awaited
+    awaited = any(isinstance(a, ast.Await) for a in walk_body(fn))
+    check.ob(rule, fn, "an awaitable abort result is awaited", awaited, "await present" if awaited else "abort result never awaited")
+
+
+def prime_tracked(check: Check, repo: Repo, mods: list[Module], rule: str = "PRIME-TRACKED") -> None:
+    check.rule(
+        rule,
+        "outside computation.py, a Computation is started only by a routine that registers what it started: "
+        "every `<c>.prime()` call is followed, in the same function, by `track_incremental_future` of "
+        "`<c>.pending_future` (the body of prime_now); a computation primed directly runs a task that "
+        "cancel_incremental_work never sees and that outlives the closed payload stream",
+    )
+    n = 0
+    for mod in mods:
+        if mod.name.endswith(".computation"):
+            continue
+        for fn in mod.functions():
+            for c in walk_body(fn):
+                if not (isinstance(c, ast.Call) and isinstance(c.func, ast.Attribute) and c.func.attr == "prime" and not c.args):
+                    continue
+                recv = unparse(c.func.value)
+                n += 1
+                tracked = False
+                fut_names = {
+                    t.id
+                    for s in walk_body(fn)
+                    if isinstance(s, ast.Assign) and unparse(s.value) == f"{recv}.pending_future"
+                    for t in s.targets
+                    if isinstance(t, ast.Name)
+                }
+                for t in walk_body(fn):
+                    if isinstance(t, ast.Call) and last_attr(t) == "track_incremental_future" and t.args and t.lineno > c.lineno:
+                        a = t.args[0]
+                        if unparse(a) == f"{recv}.pending_future" or (isinstance(a, ast.Name) and a.id in fut_names):
+                            tracked = True
+                check.ob(rule, c, f"{qualname_of(c)}: {unparse(c)}", tracked,
+                         f"{recv}.pending_future is handed to track_incremental_future" if tracked else
+                         f"`{recv}` is primed but its pending future is not registered with track_incremental_future in this function")
+    if n < 1:
+        raise AnalysisError("PRIME-TRACKED: no Computation.prime() call site found outside computation.py")
